@@ -10,10 +10,14 @@ THEOREMS = [_T + n for n in [
     "remote_ip_source", "remote_ip_valid_or_socket", "remote_ip_spec_partial", "remote_ip_spec_refuted",
     "protocol_http_or_https", "protocol_observed", "unapply_restores", "ctx_restored_after_run", "no_leak", "no_leak_trace",
     "leak_without_finish",
+    "remote_ip_numeric_trace", "remote_ip_numeric", "isValidIp_numeric", "remote_ip_allowed",
 ]]
 TRUSTED = [
-    "netutil.is_valid_ip is a parameter of the model (`valid`); the harness evaluates the real function on every candidate string "
-    "of the case and hands the accepted ones to the driver (C43 covers is_valid_ip itself)",
+    "libc getaddrinfo(AI_NUMERICHOST) is a parameter (`gai`) of the model of is_valid_ip (C32.isValidIp: the pre-checks of the fixed "
+    "function + the resolver); the harness asks the raw resolver about every candidate string of the case, the MODEL decides validity "
+    "and the set it accepts is compared with the real is_valid_ip on every case. The resolver contracts the Lean theorems assume "
+    "(ResolverNumeric: it accepts only numeric-host text; ResolverPlain: it accepts every plain address) are not proved; the oracle "
+    "checks their consequences on every observed remote_ip with Spec.numericIP / Spec.allowedOf, which do not use is_valid_ip",
     "HTTP/1.x framing, header-block parsing on the wire and the exactly-once finish/close notification are C01/C05/C06; here the "
     "header block is parsed by the C06 model and the event trace headers;finish per request is what the real connection is observed to do",
     "core/faketransport.py + core/vloop.py (deterministic transport and clock under the real HTTP1ServerConnection)",
@@ -22,20 +26,33 @@ ASSUMPTIONS = [
     "the server's `protocol` argument is None, 'http' or 'https' and the stream is an AF_INET/AF_INET6 stream (socket address is an IP)",
     "request header blocks are syntactically valid (field names are tokens, values are field-values); invalid blocks end the "
     "connection with 400 before the proxy adapter runs",
+    "the raw resolver outcome is this platform's (Linux/glibc; interface `lo` exists, so zone ids are exercised); getaddrinfo raising a "
+    "gaierror other than EAI_NONAME (re-raised by is_valid_ip) does not occur on header text and is not modelled",
     "str.strip() of an X-Forwarded-For entry is modelled with the CPython 3.12 whitespace set (compared with the interpreter by C43's `tables` case)",
 ]
-RULE = ("1-5 keep-alive requests per connection, each with 0-4 proxy header lines drawn from IPs (v4, v6, mapped, scoped), garbage, "
+RULE = ("1-5 keep-alive requests per connection, each with 0-4 proxy header lines drawn from IPs (v4, v6, mapped, scoped), a table of "
+        "numeric-host boundary forms (inet_aton short/octal/hex forms and overflows, IPv6 group counts and `::` placement, embedded quads, "
+        "zone ids: index, interface, alias-label trick, junk), 1-2 character mutations of all of these, garbage, "
         "lists with trusted entries and inner spaces, empty values, mixed-case/duplicate/folded header names; GET and POST, immediate "
         "and delayed responses, random segmentation; non-trivial = >=2 requests on the connection of which >=1 changes remote_ip or protocol")
 EXHAUSTIVE = {"quick": False, "thorough": False}
 CLAUSE_CAVEATS = [
-    "'numeric IP address' is judged with the implementation's own is_valid_ip in the tie (validity is a parameter in Lean); the independent characterisation of is_valid_ip is property C43's",
+    "'numeric IP address' = Spec.numericIP (inet(3) numbers-and-dots forms, RFC 4291 IPv6 text, optional RFC 4007 zone id); the Lean "
+    "theorems reach it from the code only through the ASSUMED resolver contract ResolverNumeric (getaddrinfo(AI_NUMERICHOST) accepts "
+    "nothing but numeric-host text once is_valid_ip's pre-checks passed) — libc is not modelled. The oracle does not depend on that "
+    "assumption (it applies Spec.numericIP to the observed remote_ip), but it sees only this platform's resolver",
+    "_ProxyAdapter.finish runs delegate.finish() before the restore: a delegate that raises there leaves the context rewritten; the "
+    "connection is then closed (no later request), which is not modelled or generated. Unix-socket contexts, HTTP/1.0 keep-alive and "
+    "unparsable header blocks in mid-connection are not generated",
 ]
 CLAUSES = {
     "remote_ip is a numeric IP taken from the proxy headers only when they supply one, X-Real-Ip before the rightmost untrusted "
     "X-Forwarded-For entry, else the socket address":
-        "remote_ip_source, remote_ip_valid_or_socket, remote_ip_spec_partial (+ remote_ip_spec_refuted: known finding, an "
-        "all-trusted X-Forwarded-For list yields its leftmost entry)",
+        "numeric: remote_ip_numeric_trace, remote_ip_numeric (every request of every trace: socket address or Spec.numericIP), "
+        "isValidIp_numeric (the fixed is_valid_ip's pre-checks reduce the contract to ASCII, NUL-free, colon-free-zone text) — all "
+        "under the assumed resolver contract ResolverNumeric; source/precedence: remote_ip_source, remote_ip_valid_or_socket, "
+        "remote_ip_spec_partial, remote_ip_allowed (the address is one Spec.allowedOf permits — a definition without is_valid_ip) "
+        "(+ remote_ip_spec_refuted: known finding, an all-trusted X-Forwarded-For list yields its leftmost entry)",
     "protocol is http or https": "protocol_http_or_https, protocol_observed",
     "values derived from one request never affect a later request on the same connection":
         "no_leak, no_leak_trace, unapply_restores, ctx_restored_after_run (leak_without_finish shows the reliance on C05)",
@@ -49,6 +66,35 @@ IPS = ["4.4.4.4", "1.2.3.4", "5.5.5.5", "10.0.0.1", "::1", "2001:db8::ff", "::ff
        "127.1", "1", "01.2.3.4", "9.9.9.9"]
 GARBAGE = ["garbage", "4.4.4.4<script>", "www.google.com", "1.2.3.256", "1.2.3.4.5", "[::1]", "::1%", "1.2.3.4\xad", "\xb9.2.3.4", "::\xaa",
            "1.2.3.4\xa0", "\xa04.4.4.4", "unknown", "-", "1.2.3.4:80", "x" * 70, "1.2.3.4;", "\xe9", "fe80::1%zz", "1.2.3.4%lo", "::g"]
+# decision boundaries of "numeric IP address": inet_aton short/octal/hex forms and their overflows, IPv6 group counts, `::` placement,
+# embedded dotted quads, zone ids (existing / missing interface, index, alias-label trick, junk)
+EDGE = ["0x7f.1", "0x7f.0.0.1", "0177.0.0.1", "08.1.1.1", "1.2.3", "1.2", "4294967295", "4294967296", "1.2.65535", "1.2.65536",
+        "1.16777215", "1.16777216", "256.1.1.1", "1.256.1", "0x.1.1.1", "0x100.1.1.1", "0xff.1.1.1", "1.2.3.4.", ".1.2.3.4", "1..3.4",
+        "1.2.3.04", "1.2.3.0x4", "1.2.3.0x", "00.0.0.0", "0", "::", ":::", "::::", "::1:", ":1::", "1:2:3:4:5:6:7:8", "1:2:3:4:5:6:7:8:9",
+        "1:2:3:4:5:6:7", "1::8", "1:2:3:4:5:6:7::", "::2:3:4:5:6:7:8", "1::2::3", "12345::", "::1.2.3", "::1.2.3.4", "::1.2.3.256",
+        "::01.2.3.4", "1:2:3:4:5:6:1.2.3.4", "1:2:3:4:5:6:7:1.2.3.4", "1.2.3.4::", "::ffff:1.2.3.4%1", "fe80::1%1", "fe80::1%01",
+        "fe80::1%", "fe80::1%lo", "fe80::1%lo:<script>", "fe80::1%lo: x", "fe80::1%lo:1", "ff02::1%lo:<b>", "fe80::1%1:x", "fe80::1%lo%lo",
+        "fe80::1%4294967295", "fe80::1%4294967296", "fe80::1%+1", "fe80::1% 1", "2001:db8::1%1", "2001:db8::1%lo", "::1%lo", "::1%1",
+        "+1.2.3.4", "-1", "1e3", "0b1", "1.2.3.4 5", "1.2.3.4/8", "0x7F.0X1", "0xg", "FE80::1", "fe80:0:0:0:0:0:0:1", "00001::", "::00001"]
+_MUT = "0123456789abcfxXg.:%lo <-+"
+
+
+def _mutate(rng, v):
+    """one or two character edits of an address: the near misses around every branch of the numeric-host grammar"""
+    for _ in range(rng.choice([1, 1, 2])):
+        k = rng.random()
+        i = rng.randrange(len(v) + 1)
+        if k < 0.4:
+            v = v[:i] + rng.choice(_MUT) + v[i:]
+        elif k < 0.65 and v:
+            i = rng.randrange(len(v))
+            v = v[:i] + v[i + 1:]
+        elif v:
+            i = rng.randrange(len(v))
+            v = v[:i] + rng.choice(_MUT) + v[i + 1:]
+    return v.strip(" ,") or "0"
+
+
 NAMES_XFF = ["X-Forwarded-For", "x-forwarded-for", "X-FORWARDED-FOR", "X-Forwarded-for"]
 NAMES_REAL = ["X-Real-Ip", "X-Real-IP", "x-real-ip"]
 NAMES_SCHEME = ["X-Scheme", "x-scheme"]
@@ -60,10 +106,14 @@ FIELD_VALUE = re.compile(r"(?:[\x21-\x7e\x80-\xff](?:[\x21-\x7e\x80-\xff \t]*[\x
 
 def _ip(rng, trusted):
     k = rng.random()
-    if k < 0.6:
+    if k < 0.45:
         return rng.choice(IPS)
-    if k < 0.75 and trusted:
+    if k < 0.6 and trusted:
         return rng.choice(trusted)
+    if k < 0.75:
+        return rng.choice(EDGE)
+    if k < 0.87:
+        return _mutate(rng, rng.choice(IPS + EDGE)).replace(",", ".")
     return rng.choice(GARBAGE)
 
 
@@ -211,8 +261,25 @@ def run_impl(case):
             if v is not None:
                 cands.add(v)
                 cands.update(p.strip() for p in v.split(","))
+    cands = sorted(cands)
     valid = sorted(c for c in cands if is_valid_ip(c))
-    return {"obs": obs, "mid": mid, "final": final, "solo": solo, "valid": valid, "responses": nresp}
+    return {"obs": obs, "mid": mid, "final": final, "solo": solo, "valid": valid, "cands": cands,
+            "gai": [c for c in cands if _gai(c)], "responses": nresp}
+
+
+def _gai(s):
+    """the raw resolver: getaddrinfo(AI_NUMERICHOST) returned results (EAI_NONAME, UnicodeError -> no)"""
+    import socket
+    if not s or "\x00" in s:
+        return False          # is_valid_ip never asks (getaddrinfo reads "" as localhost and refuses NUL with ValueError)
+    try:
+        return bool(socket.getaddrinfo(s, 0, socket.AF_UNSPEC, socket.SOCK_STREAM, 0, socket.AI_NUMERICHOST))
+    except socket.gaierror as e:
+        if e.args[0] == socket.EAI_NONAME:
+            return False
+        raise
+    except UnicodeError:
+        return False
 
 
 # ----------------------------------------------------------------------------------------------- model / spec
@@ -240,7 +307,8 @@ def model_requests(case, impl):
             evs.append([atom("C")])          # the peer goes away inside the body: on_connection_close
         else:
             evs.append([atom("F")])
-    return [line(ID, "trace", case["sock"], _proto(case), case["trusted"], impl["valid"], evs)]
+    return [line(ID, "trace", case["sock"], _proto(case), case["trusted"], impl["gai"], evs),
+            line(ID, "valid", impl["cands"], impl["gai"])]
 
 
 def _norm(v):
@@ -269,22 +337,26 @@ def model_result(case, replies):
     # `mid` is read when every byte has been delivered: before the final close event of an aborted request
     mid = steps[-2][1:] if _aborted(case) else (steps[-1][1:] if steps else orig)
     final = steps[-1][1:] if steps else orig
-    return {"obs": obs, "mid": mid, "final": final}
+    return {"obs": obs, "mid": mid, "final": final, "valid": _py(replies[1])[0]}
 
 
 def impl_view(case, impl):
-    return {"obs": impl["obs"], "final": impl["final"], "mid": impl["mid"]}
+    return {"obs": impl["obs"], "final": impl["final"], "mid": impl["mid"], "valid": impl["valid"]}
+
+
+def _seen_ips(impl):
+    return sorted({o[0] for o in impl["obs"] if isinstance(o[0], str)})
 
 
 def spec_requests(case, impl):
-    return [line(ID, "spec", case["sock"], case["trusted"], impl["valid"], [r["lines"] for r in case["reqs"]])]
-
-
-_NUMERIC = re.compile(r"[0-9A-Fa-fxX.:]+(%[!-~]+)?\Z")
+    # neither line carries anything computed by is_valid_ip
+    return [line(ID, "spec", case["sock"], case["trusted"], [r["lines"] for r in case["reqs"]]),
+            line(ID, "numeric", _seen_ips(impl))]
 
 
 def spec_violation(case, impl, replies):
     want = _py(replies[0])[0]
+    numeric = dict(zip(_seen_ips(impl), _py(replies[1])[0]))
     obs = impl["obs"]
     n = _expected_count(case)
     if len(obs) != n:
@@ -293,15 +365,15 @@ def spec_violation(case, impl, replies):
         ip, proto = o[0], o[1]
         if proto not in ("http", "https"):
             return "request %d: protocol %r" % (i, proto)
-        if ip != case["sock"] and not (isinstance(ip, str) and ip.isascii() and _NUMERIC.match(ip)):
+        if ip != case["sock"] and numeric.get(ip) is not True:
             return "request %d: remote_ip %r is neither the socket address nor a numeric IP address" % (i, ip)
         if impl["solo"][i] is not None and [ip, proto] != impl["solo"][i]:
             return "request %d saw %r but %r on a fresh connection: state leaked from an earlier request" % (i, [ip, proto], impl["solo"][i])
         w = want[i]
-        if isinstance(w, list) and ip != w[0]:
+        if isinstance(w, list) and ip not in w[0]:
             if w[1] is True:
                 return "request %d: every X-Forwarded-For entry is a trusted proxy; remote_ip %r, socket address expected" % (i, ip)
-            return "request %d: remote_ip %r, the headers call for %r" % (i, ip, w[0])
+            return "request %d: remote_ip %r, the headers call for %s" % (i, ip, " or ".join(repr(x) for x in w[0]))
     if impl["final"] != [case["sock"], _proto(case)] or (not _aborted(case) and impl["mid"] != [case["sock"], _proto(case)]):
         return "connection context not restored after the last request: %r / %r" % (impl["mid"], impl["final"])
     return None
@@ -316,6 +388,12 @@ def stats(case, impl):
     for o in impl["obs"]:
         out.append("ip:" + ("socket" if o[0] == case["sock"] else "header"))
         out.append("proto:" + o[1] + ("" if o[1] == _proto(case) else "(changed)"))
+    out.append("candidates accepted by is_valid_ip:%d" % min(len(impl["valid"]), 6))
+    out.append("candidates refused:%d" % min(len(impl["cands"]) - len(impl["valid"]), 6))
+    if set(impl["gai"]) - set(impl["valid"]):
+        out.append("resolver accepts, pre-checks of is_valid_ip refuse")
+    if any("%" in v for v in impl["valid"]):
+        out.append("accepted address with zone id")
     return out
 
 
@@ -325,7 +403,9 @@ def signature(case, impl, why):
     if "leaked" in why or "not restored" in why:
         return "leak"
     if "numeric" in why:
-        return "remote_ip/not-numeric" + ("/non-ascii" if any(not o[0].isascii() for o in impl["obs"] if isinstance(o[0], str)) else "")
+        bad = [o[0] for o in impl["obs"] if isinstance(o[0], str) and repr(o[0]) in why]
+        return "remote_ip/not-numeric" + ("/non-ascii" if any(not b.isascii() for b in bad) else
+                                           "/zone-id" if any("%" in b for b in bad) else "")
     if "protocol" in why:
         return "protocol/not-http-or-https"
     if "handler saw" in why:
